@@ -148,9 +148,9 @@ impl Puppet {
             // never block forever on a target that is stopped or dead
             use std::os::fd::AsRawFd;
             let mut pfd = libc::pollfd { fd: self.stdout.get_ref().as_raw_fd(), events: libc::POLLIN, revents: 0 };
-            let r = unsafe { libc::poll(&mut pfd, 1, 10_000) };
+            let r = unsafe { libc::poll(&mut pfd, 1, 30_000) };
             if r <= 0 {
-                return Err(format!("puppet {} did not answer {line:?} within 10 s", self.pid));
+                return Err(format!("puppet {} did not answer {line:?} within 30 s", self.pid));
             }
         }
         self.stdout.read_line(&mut reply).map_err(|e| e.to_string())?;
@@ -315,7 +315,7 @@ impl Puppet {
     /// live block thread is inside futex(2). Busy (spin/count) threads never block by design.
     pub fn quiesce(&mut self) {
         let _ = self.cmd("ping");
-        let deadline = std::time::Instant::now() + std::time::Duration::from_secs(5);
+        let deadline = std::time::Instant::now() + std::time::Duration::from_secs(30);
         let in_syscall = |pid: i32, tid: i32, nr: &str| -> bool {
             std::fs::read_to_string(format!("/proc/{pid}/task/{tid}/syscall")).map(|s| s.starts_with(nr)).unwrap_or(false)
         };
@@ -344,6 +344,26 @@ impl Puppet {
 impl Drop for Puppet {
     fn drop(&mut self) {
         let _ = self.child.kill();
-        let _ = self.child.wait();
+        // A thread that the code under test left ptrace-attached dies as a zombie that only its tracer
+        // (this process) can reap, and until then the leader cannot be reaped either: a plain wait()
+        // would block for ever.  Reap leftover tracees explicitly and never block.
+        let pid = self.child.id() as i32;
+        let deadline = std::time::Instant::now() + std::time::Duration::from_secs(5);
+        loop {
+            if let Ok(rd) = std::fs::read_dir(format!("/proc/{pid}/task")) {
+                for e in rd.flatten() {
+                    if let Ok(tid) = e.file_name().to_string_lossy().parse::<i32>() {
+                        if tid != pid {
+                            let mut st = 0;
+                            unsafe { libc::waitpid(tid, &mut st, libc::__WALL | libc::WNOHANG) };
+                        }
+                    }
+                }
+            }
+            match self.child.try_wait() {
+                Ok(None) if std::time::Instant::now() < deadline => std::thread::sleep(std::time::Duration::from_millis(2)),
+                _ => break,
+            }
+        }
     }
 }
